@@ -214,6 +214,10 @@ func NewDialogueRunner(storer variable.Storer, rngSeed string, readers ...io.Rea
 		return nil, fmt.Errorf("failed to create dialogue: %w", err)
 	}
 
+	if len(dialogue.Nodes) == 0 {
+		return nil, errors.New("failed to create dialogue: no node found")
+	}
+
 	statementsToRun := container.Stack[*statementQueue]{}
 	firstNode := dialogue.Nodes[0]
 	statementsToRun.Push(&statementQueue{statements: firstNode.Statements})
